@@ -174,6 +174,7 @@ class Points:
         return "{}:\n{}".format(self.__class__.__name__, self.coordinates)
 
     def _compute_slice(self, val):
+        was_tuple = isinstance(val, tuple)
         if isinstance(val, (tuple, list)):
             # work on a copy: the last entry is replaced below, the key of the caller
             # has to stay as it is
@@ -213,6 +214,10 @@ class Points:
                         out_idxs += rng[slc[var]]
                     val[-1] = out_idxs
 
+        if was_tuple:
+            # one entry per axis: as a list, torch would read integers (p[0, 1]) as a
+            # gather of these rows of the first axis
+            val = tuple(val)
         return val, out_space
 
     def __getitem__(self, val):
